@@ -119,7 +119,16 @@ class Flows:
             b"urn:service:sos", b"tel:+15551234", b"^sos.*@example.org$", b"b.b@svc.example.com", b"gw.+local",
             # a user@host name that is NOT a regular expression ('+' with nothing to repeat): only the literal comparison can match it
             b"+1555@svc.example.com", b"other.example, +help@desk.example"])
-        self.s = s = Scenario(block, name=names, keep=o.get("keep", r.random() < 0.5),
+        # keepNextHopRoute as an operator may write it, and the environment default it overrides unless it is empty
+        keep = o.get("keep", r.random() < 0.5)
+        keep_env = None
+        if r.random() < 0.35:
+            keep = r.choice([b"yes", b"On", b"T", b"y", b"1", b"TRUE"] if keep else [b"no", b"off", b"0", b"False", b"maybe", b"n"])
+        if r.random() < 0.3:
+            keep_env = r.choice([b"true", b"1", b"yes", b"false", b"0", b"", b"on"])
+            if r.random() < 0.4:
+                keep = b""                      # the key is left out: the environment decides
+        self.s = s = Scenario(block, name=names, keep=keep, keep_env=keep_env,
                               dialog_timeout=o.get("dialog_timeout", 1200))
         self.names = names
         nb = o.get("backends", r.choice([0, 1, 2, 2, 3, 4]))
@@ -681,6 +690,10 @@ def tcp_history(rng, block, opts=None):
                   (b"Call-ID", t["callid"]), (b"CSeq", t["cseq"])]
             b = r.choice(f.backends)
             ip, port = b.split(b":")
+            if r.random() < 0.2:
+                # the backend answers from ANOTHER socket (legal over UDP): not a registered backend address
+                port = b"5071"
+                s.udp_ep(ip, 5071)
             s.ev_udp(f.li, (ip, int(port)), msg(b"SIP/2.0 %d X" % code, hs))
             t["prov"] = True
             if code >= 200:
